@@ -18,6 +18,7 @@ mod gen_abi;
 mod crypto_ops;
 mod intro_ops;
 mod conc_ops;
+mod many_methods;
 
 fn main() {
     std::panic::set_hook(Box::new(|_| {}));
@@ -45,6 +46,9 @@ fn main() {
 
 pub fn dispatch(op: &str, toks: &[&str]) -> String {
     if let Some(r) = conc_ops::dispatch(op, toks) {
+        return r;
+    }
+    if let Some(r) = many_methods::dispatch(op, toks) {
         return r;
     }
     if let Some(r) = schema_ops::dispatch(op, toks) {
